@@ -335,11 +335,21 @@ func c11A4Builder(r *core.R, it *c11Interp, b *c11Builder) {
 		return
 	}
 	cr := "reverse@" + tn
+	passForm := false
+	if nRev == 0 && acc == nil {
+		// the flag may be computed in a later pass over the built list (c11_rev2.go)
+		n2, bad2 := c11ReversePass(r, paths, L, X, fill)
+		nRev += n2
+		revBad = append(revBad, bad2...)
+		passForm = n2 > 0
+	}
 	switch {
 	case len(revBad) > 0:
 		r.Bad(cr, pos, "%s", strings.Join(c11Uniq(revBad), "; "))
 	case nRev == 0:
 		r.Bad(cr, pos, "ReverseOfPrevious is never computed for way children: updates of way members lose their Reverse flag")
+	case passForm:
+		r.OK(cr, pos, "a pass over every position i >= 1 of the built list, run on every path that returns it, stores list[i].ReverseOfPrevious = IsReverse(<history>[i], <history>[i-1])")
 	default:
 		r.OK(cr, pos, "ReverseOfPrevious = IsReverse(<history>[i], <history>[i-1]) only on paths that decided i != 0")
 	}
